@@ -26,6 +26,7 @@ LEVEL_TEXT = ("Must-call / pairing rules along the whole invalidation chain: cla
               "and vm_mngr.c (record + check on every success path, byte counts), template/emission rules over the "
               "three back ends, registration and removal rules over jitcore.py and jitload.py. Breaking any link "
               "breaks the property; the chain being complete is necessary, not sufficient.")
+LEVEL_TEXT += ' The C overlap test is decided on linear forms of the clang AST (single-assignment locals expanded).'
 ASSUMPTIONS = ["clang 14 AST (macros expanded)", "CPython ast", "the LLVM back end is read, never run (no llvmlite here)"]
 
 VMPY = "miasm/jitter/vm_mngr_py.c"
